@@ -155,7 +155,7 @@ Qed.
 (* ---------- all steps ---------- *)
 Theorem step_keeps t o : wf t -> ecs_in_range t = true -> wf (fst (ed_step t o)) /\ ecs_in_range (fst (ed_step t o)) = true.
 Proof.
-  intros (W1 & W2 & W3) R. destruct o as [ids|ids|ids|data|ids|k on|ids| |k|k|k v]; cbn [ed_step fst]; try (split; [repeat split; assumption|exact R]).
+  intros (W1 & W2 & W3) R. destruct o as [ids|ids|ids|data|ids|k on|ids| |k|k|k v| ]; cbn [ed_step fst]; try (split; [repeat split; assumption|exact R]).
   - unfold m_set_ec. destruct (ec_check_ok t data) as [[Z1 _] _]. destruct (ec_check t data =? 0) eqn:E; cbn [fst]; [|split; [repeat split; assumption|exact R]].
     apply Z.eqb_eq in E. apply Z1 in E. apply orb_false_iff in E as [_ E].
     destruct (fold_assign_range data (ecs t) R W2 (accepted_in_bounds t data E)) as [A B].
@@ -185,9 +185,12 @@ Definition admitted13 (t : dtab) (o : dop) (t' : dtab) (out : dout) : Prop :=
 Lemma option_map_match {A B} (g : A -> B) (x : option A) : option_map g x = match x with Some a => Some (g a) | None => None end.
 Proof. destruct x; reflexivity. Qed.
 
+Lemma alarm_ids_filter flag tab : m_alarm_ids flag tab = map fst (filter (fun p => flag (snd p)) tab).
+Proof. induction tab as [|[k a] r IH]; [reflexivity|]. cbn [m_alarm_ids filter snd]. destruct (flag a); cbn [map fst]; rewrite IH; reflexivity. Qed.
+
 Theorem step_refines13 t o : wf t -> admitted13 t o (fst (ed_step t o)) (snd (ed_step t o)).
 Proof.
-  intros (W1 & W2 & W3). unfold admitted13. destruct o as [ids|ids|ids|data|ids|k on|ids| |k|k|k v]; cbn [ed_step e5d_step fst snd].
+  intros (W1 & W2 & W3). unfold admitted13. destruct o as [ids|ids|ids|data|ids|k on|ids| |k|k|k v| ]; cbn [ed_step e5d_step fst snd].
   - split; [reflexivity|]. eexists. split; [left; reflexivity|]. left. unfold m_req_sv, all_or. destruct ids as [|i r].
     + f_equal. symmetry. rewrite <- (lookup_own (fun _ s => Some (sv_value s)) (fun _ => None) (svs t) W1).
       apply map_ext. intro k. apply option_map_match.
@@ -212,6 +215,7 @@ Proof.
   - destruct (rlookup k (alarms t)) as [a|]; [|exact I]. destruct (al_set a) eqn:S; cbn [negb fst snd]; (split; [reflexivity|]); eexists; (split; [left; reflexivity|]); left;
       [|reflexivity]. unfold alcd. cbn [al_code al_set]. rewrite Z.add_0_r. destruct (al_enabled a); reflexivity.
   - split; [reflexivity|]. eexists. split; [left; reflexivity|left; reflexivity].
+  - split; [reflexivity|]. eexists. split; [left; reflexivity|]. left. f_equal; symmetry; apply (alarm_ids_filter (fun a => _ a)).
 Qed.
 
 (* S5F5 is never aborted: one row per requested ALID, in request order, also for alarms that do not exist *)
@@ -224,3 +228,8 @@ Proof.
   - intros k Hk. apply in_map_iff. exists k. split; [|exact Hk]. destruct (rlookup k (alarms t)) as [a|]; [|reflexivity].
     unfold al_row, alcd, ALARM_SET. reflexivity.
 Qed.
+
+(* the status variables AlarmsEnabled / AlarmsSet list exactly the alarms enabled / set at that moment, in table order *)
+Lemma alarm_svs_current t :
+  snd (ed_step t DReqAlarmSVs) = DAlarmLists (map fst (filter (fun p => al_enabled (snd p)) (alarms t))) (map fst (filter (fun p => al_set (snd p)) (alarms t))).
+Proof. cbn [ed_step snd]. f_equal; apply (alarm_ids_filter (fun a => _ a)). Qed.
